@@ -88,3 +88,9 @@ Lemma line_example :
   value (pinset_of line_pol 1 arrA) 7 = Some 5 /\ value (pinset_of line_pol 3 arrC) 7 = Some 5 /\
   value (pinset_of line_pol 1 arrA) 8 = Some 6 /\ value (pinset_of line_pol 3 arrC) 8 = Some 6.
 Proof. vm_compute. repeat split; reflexivity. Qed.
+
+(* the trust test of the H3 check (Model/C02_CheckSet.v) is `trusts` on the observed configuration *)
+From V Require Import Model.C02_CheckSet.
+Lemma np_trusts_is_trusts (pol : peer -> tpolicy) (x : npeer) (p : N) :
+  pol (np_id x) = mk_tp (np_all x) (np_list x) -> np_trusts x p = trusts pol (np_id x) p.
+Proof. intros E. unfold np_trusts, trusts. rewrite E. reflexivity. Qed.
